@@ -13,6 +13,22 @@ E2 = "explicit-state search over operation histories of the real objects against
 E3 = "bounded-exhaustive input/configuration enumeration against a reference model (depth-1 model checking)"
 
 CHECKS = {
+    "C12": dict(
+        engine="E1-sched (configurations x fault sequences)",
+        category="model_checking",
+        technique=E1 + "; scripted controller holding the configuration as reference model; full configuration product at deviation bound 0",
+        text="The real Gateway with discovery enabled and no schema runs on the virtual loop against a scripted controller that answers RQ|0005/000C as an "
+        "evohome does. (A) Full product of configurations - zone slot 00 absent or class radiator/zone-valve/electric/mixing x sensor thermostat / own TRV / "
+        "the controller / digital thermostat x 0, 1, 2, 8 actuators; slots 05 and 0B absent or any class; every subset of DHW sensor / hot-water valve / heating "
+        "valve; appliance none / relay / OpenTherm bridge (quick 2.3 k, thorough 39 k) - plus every zone index alone, all 12 zones, both 000C element layouts, "
+        "sensorless zones: after 300 virtual seconds the schema's facts equal the configuration's. (B) For 5 representative configurations every assignment of "
+        "fates {transmission lost, reply lost, whole command lost through all retransmissions, every reply lost} to the 0005/000C exchanges of the first round "
+        "with <= 1 (thorough 2, also in the second round) deviations, horizon 25 (49) virtual hours: the schema ends equal to the configuration, and every "
+        "sample on the way holds only facts the controller stated and never loses one.",
+        design_ref="4/C12",
+        note="A zone whose sensor is the controller itself is not revealed by 000C (real controllers answer 'no device'): sensor unknown or = controller are both accepted. "
+        "Thermostats shared between zones and UFH zones are outside the product.",
+    ),
     "C18": dict(
         engine="E1-sched",
         category="model_checking",
